@@ -6,6 +6,7 @@ import (
 	"fmt"
 	"log/slog"
 	"os"
+	"runtime"
 	"sort"
 	"strings"
 	"sync/atomic"
@@ -29,7 +30,25 @@ type sbrPendingViol struct {
 	viol []sbViolation
 }
 
-var sbrPending atomic.Pointer[sbrPendingViol]
+var (
+	sbrPending atomic.Pointer[sbrPendingViol]
+	sbrCurrent atomic.Pointer[sbEngine] // the running case's engine, for the watchdog's report
+)
+
+// sbrLogTail is called by the watchdog when every goroutine is parked: the log's mutex is free unless its holder is
+// itself parked, hence TryLock.
+func sbrLogTail() string {
+	e := sbrCurrent.Load()
+	if e == nil || !e.mu.TryLock() {
+		return ""
+	}
+	defer e.mu.Unlock()
+	tail := e.log
+	if len(tail) > 70 {
+		tail = tail[len(tail)-70:]
+	}
+	return "\n  event log (tail):\n    " + strings.Join(tail, "\n    ")
+}
 
 func sbrRun(t *testing.T, c sbrCase, prop string) (info sbrInfo, viol []sbViolation, err error) {
 	sbrInit()
@@ -88,6 +107,8 @@ func sbrRun(t *testing.T, c sbrCase, prop string) (info sbrInfo, viol []sbViolat
 		e.models = append(e.models, &Model{Name: sbrName(i), ShortName: sbrName(i), ModelPath: p})
 	}
 
+	sbrCurrent.Store(e)
+	defer sbrCurrent.Store(nil)
 	sbInCase.Store(1)
 	defer sbInCase.Store(0)
 	func() {
@@ -192,6 +213,46 @@ func sbrRun(t *testing.T, c sbrCase, prop string) (info sbrInfo, viol []sbViolat
 // sbrWatchdog is sbWatchdog for this target's case type: a wedged server (every goroutine parked while the harness
 // waits for quiescence) becomes a reported outcome. Handlers of clients that gave up are parked in scheduleRunner for
 // ever on the unchanged tree too: they are durably blocked, never keep the harness waiting and are not part of the signature.
+// sbrBlockedSignature is sbBlockedSignature with this file's watchdog excluded and with the handlers that wait on a
+// runner's mutex (scheduleRunner, expireRunner called from a handler) added to the signature.
+func sbrBlockedSignature() (sig string, ok bool, dump string) {
+	buf := make([]byte, 4<<20)
+	buf = buf[:runtime.Stack(buf, true)]
+	dump = string(buf)
+	ok = true
+	var parts []string
+	for _, g := range strings.Split(dump, "\n\n") {
+		m := sbHdr.FindStringSubmatch(g)
+		if m == nil || strings.Contains(g, "sbrWatchdog") {
+			continue
+		}
+		state := m[2]
+		if strings.HasPrefix(state, "running") || strings.HasPrefix(state, "runnable") || strings.HasPrefix(state, "syscall") {
+			ok = false
+		}
+		st := state
+		if i := strings.IndexAny(st, ",("); i > 0 {
+			st = strings.TrimSpace(st[:i])
+		}
+		for _, l := range strings.Split(g, "\n") {
+			sched := strings.Contains(l, "ollama/server.(*Scheduler)") || strings.Contains(l, "ollama/server.(*runnerRef)") || strings.Contains(l, "ollama/server.(*LlmRequest)")
+			handler := strings.Contains(l, "ollama/server.(*Server)") && strings.HasPrefix(st, "sync.")
+			if !sched && !handler {
+				continue
+			}
+			fn := strings.TrimSpace(l)
+			if j := strings.LastIndex(fn, "("); j > 0 {
+				fn = fn[:j]
+			}
+			fn = fn[strings.LastIndex(fn, "/")+1:]
+			parts = append(parts, fn+"@"+st)
+			break
+		}
+	}
+	sort.Strings(parts)
+	return strings.Join(parts, "; "), ok, dump
+}
+
 func sbrWatchdog(rec *vfkit.Recorder, target, prop string, cur func() (sbrCase, bool)) {
 	go func() {
 		last := sbProgress.Load()
@@ -206,9 +267,9 @@ func sbrWatchdog(rec *vfkit.Recorder, target, prop string, cur func() (sbrCase, 
 			if time.Since(lastChange) < 6*time.Second {
 				continue
 			}
-			s1, ok1, _ := sbBlockedSignature()
+			s1, ok1, _ := sbrBlockedSignature()
 			time.Sleep(3 * time.Second)
-			s2, ok2, dump := sbBlockedSignature()
+			s2, ok2, dump := sbrBlockedSignature()
 			if sbProgress.Load() != last || !ok1 || !ok2 || s1 != s2 {
 				continue
 			}
@@ -226,7 +287,7 @@ func sbrWatchdog(rec *vfkit.Recorder, target, prop string, cur func() (sbrCase, 
 			fmt.Printf("WEDGE: no goroutine can run; scheduler goroutines parked at: %s\n", s2)
 			os.Stderr.WriteString(dump)
 			if prop == "C02" && have {
-				rec.Fail(target, c, "the server wedged (every goroutine parked for ever, requests can no longer be answered): "+s2)
+				rec.Fail(target, c, "the server wedged (every goroutine parked for ever, requests can no longer be answered): "+s2+sbrLogTail())
 				rec.Flush()
 				os.Exit(1)
 			}
